@@ -185,12 +185,15 @@ CLAIMED = {
         "other 126, success 0, from the ordered except clauses and the exception hierarchy); the empty answer is ignore, "
         "every non-empty prefix of an option name in any ASCII case selects that option, prefixes are unambiguous (first "
         "letters distinct), anything else re-prompts; answering stop/ignore/override at the prompt is definitionally the "
-        "flag; a custom path is tried with override=False; ignore never yields the conflict outcome, stop yields it "
+        "flag; a custom path passes the containment check (F18) and is then tried with override=False; ignore never yields the conflict outcome, stop yields it "
         "without another call; an override rename puts exactly the source's identity and content at the destination. "
-        "The plan-level claims (stop only on a real conflict, ignore renames every free file, override keeps the source's "
-        "content) are evaluated on instrumented real runs with all strategies and scripted answers, compared with the model.",
+        "Plan level, name mode on link-free trees: a run under stop that ends with the conflict status had a plan that "
+        "was not free (stop_only_on_real_conflict), and under a free plan ignore exits 0 having renamed every file "
+        "(ignore_renames_all_free) - both via C02/C05. The remaining plan-level claims (ignore leaves only conflicting "
+        "files unrenamed when the plan is NOT free, path/directory mode, override keeps the source's content in whole "
+        "runs) are evaluated on instrumented real runs with all strategies and scripted answers, compared with the model.",
         "Trusted: Lean kernel; extraction by harness/extract.py; ASCII lower-casing; hand-written pipeline model tied by "
-        "sampled correspondence; the plan-level semantics of stop/ignore are decided by the oracle and by C02, not proved here.",
+        "sampled correspondence; the plan-level semantics of stop/ignore outside free name-mode plans are decided by the oracle.",
         "DESIGN.md §7 C03",
     ),
     "C02": (
@@ -199,9 +202,13 @@ CLAIMED = {
         "successfully, the reported renames are a permutation of exactly the planned moves (each file whose generated "
         "path differs from its own, once, to exactly that path), none uses override, and every file had a usable "
         "generated path; each reported rename is a guarded call (C01/C06: it moves exactly its source onto a path that "
-        "did not exist). Partial: that the composition of these renames equals the plan applied to the initial tree, "
-        "that free plans succeed and that uniformly ordered chains succeed are NOT yet theorems; they are decided by "
-        "the oracle on every function from <=3 (quick) / <=4 (thorough) files into a name universe in every order "
+        "did not exist). Free plans succeed (free_plan_succeeds_name_mode): in name mode on link-free trees, for every "
+        "file list, order, strategy and scripted stop/ignore/override answers, a plan whose destinations are pairwise "
+        "different and absent from the initial tree ends successfully in the REAL renamer model, having reported exactly "
+        "the planned renames in processing order (proved for the dry-run renamer by set algebra and transferred through "
+        "the C05 simulation). Partial: that the composition of these renames equals the plan applied to the initial tree "
+        "(identities, contents), uniformly ordered chains, and free plans in path/directory mode are NOT theorems; they "
+        "are decided by the oracle on every function from <=3 (quick) / <=4 (thorough) files into a name universe in every order "
         "(exhaustive, labelled as a test) and on random multi-root runs in all modes, with the final tree compared "
         "with the independently computed expectation and with the model.",
         "Trusted: Lean kernel; hand-written pipeline model tied by sampled correspondence; plan values are the observed "
@@ -255,17 +262,22 @@ CLAIMED = {
         "DESIGN.md §7 C15",
     ),
     "C05": (
-        "Lean 4 refinement theorem over the pipeline (renamers in simulation report the same renames and end the same way, for every file list, plan, order, strategy and answers) + set-algebra lemma of the dry-run state; the simulation premise DryRunRenamer ~ FileRenamer/FileMover is tied by running every scenario dry and real on the implementation and on the model",
-        "Proved in Lean (C05.runs_agree): if two renamers are related by a state relation that every pair of "
-        "corresponding calls preserves while failing/succeeding alike and under which the containment check agrees, "
-        "then the two runs report the same sequence of (source, destination, override) and end with the same outcome, "
-        "for every file list, plan, order, strategy and answer sequence; and a successful dry-run call makes exactly "
-        "the destination virtually present and the source absent, leaving every other path untouched. Partial: that "
-        "the dry-run renamer and the real renamers ARE in such a simulation (name mode: every tree; path/directory "
-        "mode under the property's side conditions) is not yet a theorem; it is established by correspondence: each "
-        "generated scenario (1-3 roots with equal relative names, explicit files, symlinks, all strategies and scripted "
-        "answers) runs through the real CLI with and without --dry-run and through the model of both, and exit status "
-        "and reported renames are compared. Known findings K2, K3, K5 are exercised and printed.",
+        "Lean 4 refinement theorem over the pipeline (renamers in guarded simulation report the same renames and end the same way, for every file list, plan, order, strategy and answers) + proof that DryRunRenamer simulates FileRenamer on every name-mode call of a link-free tree, hence dry = real in name mode for all plans (colliding, chained, cyclic); path/directory mode and symlinks tied by running every scenario dry and real on the implementation and on the model",
+        "Proved in Lean: (runs_agree_on) if two renamers are related by a state relation that every pair of "
+        "corresponding calls satisfying a guard preserves while failing/succeeding alike, under which the containment "
+        "check agrees, and every call the plan and the answers can give rise to satisfies the guard, then the two runs "
+        "report the same sequence of (source, destination, override) and end with the same outcome, for every file list, "
+        "plan, order, strategy and answer sequence; (name_mode_simulation) the dry-run renamer and the in-place renamer "
+        "ARE in such a simulation for every name-mode call (plain names of one directory, neither source nor destination "
+        "a directory) on a well-formed link-free tree, the relation being 'a path exists in the real tree iff it is "
+        "virtually present in the dry state, the directories are those of the initial tree'; hence "
+        "(dry_run_predicts_name_mode) in name mode the dry run reports exactly what the real run does and ends alike for "
+        "free, colliding, chained and cyclic plans, every order, every strategy and scripted stop/ignore/override "
+        "answers. Partial: custom-path answers, path and directory mode (under the property's side conditions) and "
+        "trees with symbolic links are not covered by the simulation theorem; they are established by correspondence: "
+        "each generated scenario (1-3 roots with equal relative names, explicit files, symlinks, all strategies and "
+        "scripted answers) runs through the real CLI with and without --dry-run and through the model of both, and exit "
+        "status and reported renames are compared. Known findings K2, K3, K5 are exercised and printed.",
         "Trusted: Lean kernel; hand-written renamer/pipeline models tied by sampled correspondence; template values "
         "independent of renames already performed.",
         "DESIGN.md §7 C05",
